@@ -174,7 +174,11 @@ func dischargeAll(obls []*Obligation, dir string, timeoutS, seed, workers int) {
 			go func(j bjob) {
 				defer wg.Done()
 				defer func() { <-sem }()
-				r := solveQuery(j.file, timeoutS, seed, true)
+				bt := timeoutS
+				if bt > 6 {
+					bt = 6
+				}
+				r := solveQuery(j.file, bt, seed, true)
 				if r.status == "unsat" {
 					for _, o := range j.os {
 						o.Status = "unsat"
@@ -225,25 +229,59 @@ func dischargeEach(obls []*Obligation, dir string, timeoutS, seed, workers int) 
 		jobs = append(jobs, job{o, f})
 		o.PC = nil // free memory
 	}
+	// cover obligations need only one satisfiable instance per name: try instances one after the other
+	covers := map[string][]job{}
+	var coverOrder []string
+	var plain []job
 	for _, j := range jobs {
+		if j.o.Kind == "cover" {
+			if _, ok := covers[j.o.Name]; !ok {
+				coverOrder = append(coverOrder, j.o.Name)
+			}
+			covers[j.o.Name] = append(covers[j.o.Name], j)
+		} else {
+			plain = append(plain, j)
+		}
+	}
+	run := func(j job) {
+		r := solveQuery(j.file, timeoutS, seed, true)
+		j.o.Status = r.status
+		j.o.Solver = r.solver
+		j.o.Time = r.secs
+		if r.status == "sat" {
+			j.o.Model = parseModel(r.output)
+			if j.o.replay != nil && j.o.replay.Unsup == "" && len(j.o.replay.Inputs) > 0 {
+				j.o.inVals, j.o.inOk = parseInputValues(r.output, len(j.o.replay.Inputs))
+			}
+		}
+		if r.status != "unsat" && r.status != "sat" {
+			j.o.Notes = append(j.o.Notes, "solver output: "+firstLines(r.output, 6))
+		}
+	}
+	for _, name := range coverOrder {
+		wg.Add(1)
+		sem <- struct{}{}
+		go func(js []job) {
+			defer wg.Done()
+			defer func() { <-sem }()
+			for i, j := range js {
+				if i >= 6 {
+					break
+				}
+				run(j)
+				if j.o.Status == "sat" {
+					break
+				}
+			}
+		}(covers[name])
+	}
+	for _, j := range plain {
 		wg.Add(1)
 		sem <- struct{}{}
 		go func(j job) {
 			defer wg.Done()
 			defer func() { <-sem }()
-			r := solveQuery(j.file, timeoutS, seed, true)
-			j.o.Status = r.status
-			j.o.Solver = r.solver
-			j.o.Time = r.secs
-			if r.status == "sat" {
-				j.o.Model = parseModel(r.output)
-				if j.o.replay != nil && j.o.replay.Unsup == "" && len(j.o.replay.Inputs) > 0 {
-					j.o.inVals, j.o.inOk = parseInputValues(r.output, len(j.o.replay.Inputs))
-				}
-			}
-			if r.status != "unsat" && r.status != "sat" {
-				j.o.Notes = append(j.o.Notes, "solver output: "+firstLines(r.output, 6))
-			}
+			run(j)
 		}(j)
 	}
 	wg.Wait()
